@@ -229,6 +229,17 @@ def trait_contracts(cs, tier):
     return out
 
 
+def type_trait_contracts(cs, tier):
+    """type-level traits: every bit of the mask (a boolean computed by the compiler from std::is_same / list membership) must be set"""
+    g, u = cs.gen, cs.unit
+    out = []
+    for name, labels in g.type_trait_roots:
+        f = u.root("r_ty_" + name)
+        post = [(lab, "((RET >> %d) & 1UL) == 1UL" % k) for k, lab in enumerate(labels)]
+        out.append(Contract(f, "%s:type-level traits %s" % (cs.name, name), props={"C18"}, pre=[], post=post, assigns=[]))
+    return out
+
+
 def scalar_type_contracts(cs, tier):
     """required_base/optional_base instantiated for the schema-defined types, with min/max/null taken from the XML (or the SBE defaults)"""
     from .scalars import unit_contracts
@@ -533,4 +544,5 @@ def contracts(tier):
         out += cursor_contracts(cs, tier)
         out += size_fill_contracts(cs, tier)
         out += trait_contracts(cs, tier)
+        out += type_trait_contracts(cs, tier)
     return out
